@@ -462,6 +462,9 @@ Definition end_session (F : cfg) (st : state) : state :=
 Definition unwind (F : cfg) (st : state) : state :=
   {| ss := ss st; ws := map (fun w => fst (wrun F (unwind_bound F w) w)) (ws st) |}.
 
+Definition unwind_replies (F : cfg) (st : state) : list Z :=
+  flat_map (fun w => snd (wrun F (unwind_bound F w) w)) (ws st).
+
 (* -- the except ladders of the dispatcher (R3) *)
 Definition handles (cls : string) (e : exn) : bool :=
   if String.eqb cls "BaseException" then true
@@ -690,12 +693,19 @@ Definition cancelled_task_ok (F : cfg) : bool :=
 Definition abor_safe (F : cfg) (w : wrk) : bool :=
   let wf := c_w F (w_kind w) in
   negb (w_leak w) &&
-  match parked_stage F w with
-  | Spawned => cancelled_task_ok F                                   (* F2 *)
-  | WaitingData _ => negb (wf_wait_outside wf) || cancelled_task_ok F (* F2 *)
-  | Detached | EnteringCtx _ | Seeking | Loop _ | ExitingCtx _ => negb (hole F w)   (* F4 *)
-  | _ => match c_abor F with AbNotDone => true | _ => false end      (* F3: finished, not reaped *)
-  end.
+  if terminal (w_stage w) then
+    (* F3: finished, not reaped *)
+    match c_abor F, w_stage w with
+    | AbNotDone, (Replied | Refused | Aborted) => true
+    | _, _ => false
+    end
+  else
+    match parked_stage F w with
+    | Spawned => cancelled_task_ok F                                   (* F2 *)
+    | WaitingData _ => negb (wf_wait_outside wf) || cancelled_task_ok F (* F2 *)
+    | Detached | EnteringCtx _ | Seeking | Loop _ | ExitingCtx _ => negb (hole F w)   (* F4 *)
+    | _ => false                                                       (* finishes before it can be cancelled: F3 *)
+    end.
 
 (* ------------------------------------------------------------------ harness interface *)
 Definition kind_of_z (z : Z) : wkind :=
